@@ -803,6 +803,7 @@ class RF24:
         # self._reg_write(0xE3)
         up_cnt = 0
         self._ce_pin.value = True
+        self.update()  # cached status byte predates clear_status_flags()
         while not self._in[0] & 0x30:
             up_cnt += self.update()
         # self._ce_pin.value = False
